@@ -108,10 +108,10 @@ func genHist(rnd *rand.Rand, cas int, big bool) *histSpec {
 	nReq := 2 + rnd.Intn(4)
 	kinds := []string{"upload", "upload", "upload", "trunc", "garbage", "chunked", "expect", "get", "post"}
 	if big {
-		// the design-round matrix: pre-parse x stream x complete/truncated, each followed by a keep-alive request
+		// pre-parsed upload above/around 16 MiB: stream on/off x complete/truncated, each followed by a keep-alive request
 		h.Big, h.MaxBody, h.ReduceMem = true, 64<<20, false
 		h.Stream = cas&1 != 0
-		h.PreParse = cas&4 == 0
+		h.PreParse = true // (on-demand parsing never reaches the 16 MiB threshold: 8 KiB streamed, unlimited buffered)
 		nReq = 2
 	}
 	for k := 0; k < nReq; k++ {
@@ -155,7 +155,7 @@ func genHist(rnd *rand.Rand, cas int, big bool) *histSpec {
 			}
 			bigSize := 0
 			if big && k == 0 {
-				bigSize = bigSizes[((cas>>3)+2+cas&1)%len(bigSizes)] // the first block of 8 is above the 16 MiB threshold
+				bigSize = bigSizes[((cas>>2)+2+cas&1)%len(bigSizes)] // the first block of 4 is above the 16 MiB threshold
 			}
 			fs := genForm(rnd, "h", cas, k, bigSize, minFirst)
 			q.Form = &fs
@@ -209,6 +209,8 @@ type histRun struct {
 	dispatched  []int
 	spilledReqs map[int]int // request index -> temp files seen while its handler ran
 	notes       []string
+	prevDone    chan struct{} // closed when the handler of the last-but-one request has returned
+	prevOnce    sync.Once
 }
 
 func (hr *histRun) payload() map[string]any {
@@ -221,6 +223,11 @@ func (hr *histRun) payload() map[string]any {
 func (hr *histRun) handler(ctx *fasthttp.RequestCtx) {
 	r := hr.r
 	idx, err := strconv.Atoi(string(ctx.Request.Header.Peek("X-Idx")))
+	defer func() {
+		if idx >= len(hr.spec.Reqs)-2 {
+			hr.prevOnce.Do(func() { close(hr.prevDone) })
+		}
+	}()
 	hr.mu.Lock()
 	if err != nil {
 		// not one of the generated requests (cannot happen while framing is intact): judge it as "the next one"
@@ -365,7 +372,7 @@ func (hr *histRun) own(idx int) []tmpInfo {
 func runHistories(r *mon.Run, tmp string) {
 	const caseBase = 1_000_000 // history case ids are disjoint from round-trip case ids (replay selects by id)
 	n := r.N(500, 20_000)
-	nBig := r.N(8, 240)
+	nBig := r.N(4, 160)
 	one := func(k int, big bool) {
 		cas := caseBase + k
 		if !r.Want(cas) {
@@ -394,7 +401,7 @@ func runHistories(r *mon.Run, tmp string) {
 func historyCase(r *mon.Run, tmp string, cas int, big bool) {
 	rnd := r.Rand("hist", cas)
 	spec := genHist(rnd, cas, big)
-	hr := &histRun{r: r, tmp: tmp, cas: cas, spec: spec, spilledReqs: map[int]int{}}
+	hr := &histRun{r: r, tmp: tmp, cas: cas, spec: spec, spilledReqs: map[int]int{}, prevDone: make(chan struct{})}
 	s := &fasthttp.Server{
 		Handler:                      hr.handler,
 		DisablePreParseMultipartForm: !spec.PreParse,
@@ -413,6 +420,7 @@ func historyCase(r *mon.Run, tmp string, cas int, big bool) {
 	if v, err := strconv.Atoi(os.Getenv("C35_WATCHDOG_S")); err == nil && v > 0 {
 		wd = time.Duration(v) * time.Second // debugging aid only
 	}
+	readerEOF := make(chan struct{})
 	finished := mon.Watchdog(wd, func() {
 		var wg sync.WaitGroup
 		wg.Add(1)
@@ -430,10 +438,17 @@ func historyCase(r *mon.Run, tmp string, cas int, big bool) {
 				}
 			}
 			if spec.Cut {
+				// close once the server has finished every earlier request (or has given up the
+				// connection): what was served before the cut does not depend on scheduling
+				select {
+				case <-hr.prevDone:
+				case <-readerEOF:
+				}
 				c.Close()
 			}
 		}()
 		io.Copy(io.Discard, c) //nolint:errcheck
+		close(readerEOF)
 		wg.Wait()
 		<-srvDone
 	})
